@@ -65,14 +65,14 @@ def overlapping_gene(w, g, new_gid, antisense=False):
 
 
 def rich_world(seed, n_chroms=6, genes_per_chrom=3, groups=3, multimappers=True, reads_per_t=5, hidden_cov=5,
-               unmapped=3, polya_frac=0.5, read_modes=None):
+               unmapped=3, polya_frac=0.5, read_modes=None, extra_len=0):
     """Several chromosomes of distinct lengths, novel (hidden) isoforms on every chromosome, shared-exon and antisense
     genes, paralogs with multi-mapped reads, read-group tags, a few unmapped records."""
     w = World(seed)
     rng = w.rng
     for ci in range(n_chroms):
         cname = "chr%d" % (ci + 1)
-        w.add_chrom(cname, 60000 + ci * 4321 + genes_per_chrom * 9000)
+        w.add_chrom(cname, 60000 + ci * 4321 + genes_per_chrom * 9000 + extra_len)
         pos = 1500
         for gi in range(genes_per_chrom):
             gid = "G%d_%d" % (ci + 1, gi + 1)
@@ -355,3 +355,28 @@ def intronic_novel_loci(w, gid, chrom, pos, strand, n_reads=12):
             w.make_read(chrom, list(t.exons), polya=30 if strand == "+" else 0, polyt=30 if strand == "-" else 0,
                         flag=0 if strand == "+" else 16, truth={"src": t.id, "class": t.kind, "annotated": t.annotated})
     return g, pos + 5400
+
+
+def alt_polya_locus(w, gid, chrom, pos, strand, ext=1200, n_reads=8):
+    """Annotated gene (T1: 4 exons, T2: exon-skipping variant) whose reads all follow T1's intron chain; half of them end at T1's
+    annotated 3' end, half at an alternative polyA site `ext` bp further downstream (far beyond apa_delta): a full-length path with a
+    reference intron chain that is NOT a matching assignment of the reference isoform."""
+    span = 4400 + ext
+
+    def m(a, b):
+        return (pos + a, pos + b) if strand == "+" else (pos + span - b, pos + span - a)
+    t1 = sorted(m(a, b) for a, b in ((0, 300), (1000, 1200), (2000, 2200), (3000, 3400)))
+    t2 = sorted(m(a, b) for a, b in ((0, 300), (2000, 2200), (3000, 3400)))
+    long3 = sorted(m(a, b) for a, b in ((0, 300), (1000, 1200), (2000, 2200), (3000, 3400 + ext)))
+    g = Gene(gid, chrom, strand)
+    g.transcripts.append(Transcript(gid + ".t1", gid, chrom, strand, t1, True, "alt-polya-host"))
+    g.transcripts.append(Transcript(gid + ".t2", gid, chrom, strand, t2, True, "alt-polya-host"))
+    for t in g.transcripts:
+        for i in t.introns:
+            w.plant_sites(chrom, i, strand)
+    w.genes.append(g)
+    tail = {"polya": 30} if strand == "+" else {"polyt": 30}
+    for _ in range(n_reads):
+        w.make_read(chrom, t1, flag=0 if strand == "+" else 16, truth={"src": gid + ".t1", "class": "reference-chain-annotated-end"}, **tail)
+        w.make_read(chrom, long3, flag=0 if strand == "+" else 16, truth={"src": gid + ".t1", "class": "reference-chain-alternative-polya-site"}, **tail)
+    return g, pos + span
